@@ -52,13 +52,16 @@ pub fn stmts() -> ZooLang {
         .supertype("_expr")
         .inline("_inl_stmt")
         .rule("program", rep(sym("_statement")))
-        .rule("_statement", choice(vec![sym("let_stmt"), sym("if_stmt"), sym("_inl_stmt"), sym("block"), sym("fn_def"), sym("empty_stmt")]))
+        .rule("_statement", choice(vec![sym("let_stmt"), sym("if_stmt"), sym("_inl_stmt"), sym("block"), sym("fn_def"), sym("empty_stmt"), sym("annotation")]))
+        // `block_comment` is an extra AND a regular member of this rule: a reused comment token can change its extra-ness
+        .rule("annotation", seq(vec![s("@"), sym("block_comment")]))
         .rule("_inl_stmt", sym("expr_stmt"))
         .rule("empty_stmt", s(";"))
         .rule("let_stmt", seq(vec![s("let"), field("name", alias(sym("identifier"), "name", true)), s("="), field("value", e()), s(";")]))
         .rule("if_stmt", prec_right(0, seq(vec![s("if"), field("cond", e()), field("then", sym("block")),
             opt(seq(vec![s("else"), field("else", choice(vec![sym("block"), sym("if_stmt")]))]))])))
-        .rule("block", seq(vec![s("{"), rep(sym("_statement")), s("}")]))
+        // the field sits on a repeat, i.e. on a hidden auxiliary node: comments between statements land INSIDE a fielded hidden node
+        .rule("block", seq(vec![s("{"), field("stmt", rep(sym("_statement"))), s("}")]))
         .rule("fn_def", seq(vec![s("fn"), field("name", sym("identifier")), field("params", sym("params")), field("body", sym("block"))]))
         .rule("params", seq(vec![s("("), sep(",", sym("identifier")), s(")")]))
         .rule("expr_stmt", seq(vec![e(), s(";")]))
@@ -78,11 +81,11 @@ pub fn stmts() -> ZooLang {
         .extras(vec![pat("\\s"), sym("comment"), sym("block_comment")]);
     ZooLang {
         name: "stmts", spec: spec(g, None),
-        lexemes: vec!["let", "if", "else", "fn", "a", "1", "=", ";", "{", "}", "(", ")", "+", "*", "..", "...", ",", "#c\n", "/*c*/", " ", "\n"],
+        lexemes: vec!["let", "if", "else", "fn", "a", "1", "=", ";", "{", "}", "(", ")", "+", "*", "..", "...", ",", "#c\n", "/*c*/", "@", " ", "\n"],
         seeds: vec![
             "", "a;", "let a = 1;", "let x = a + 1 * b;\nf(x, 2);\n", "if a { b; } else { c; }", "if a { } else if b { c; } else { d; }",
             "fn f(a, b) { let c = a..b; g(c)(1); }", "{ a; # note\n b; /* x */ c; }", "let a = (1 + 2) * 3 ... 4;", "lett = 1;", "let let = 1;",
-            "if a { b;", "a b;", "fn (a) {}", "let a = 1 @;", "{{{ a; }}}", "a;b;c;d;e;f;g;h;", "iff; elsee; fnn; if_x;", "let é = 1;", "1..2...3;",
+            "if a { b;", "a b;", "fn (a) {}", "let a = 1 @;", "{{{ a; }}}", "a;b;c;d;e;f;g;h;", "iff; elsee; fnn; if_x;", "let é = 1;", "1..2...3;", "@ /*a\nb*/ x;", "@/*c*/ /*d*/ @ /*e*/",
         ],
         skippable: b" \t\r\n", has_scanner: false,
     }
@@ -159,6 +162,23 @@ pub fn lexla() -> ZooLang {
         name: "lexla", spec: spec(g, None),
         lexemes: vec![".", "..", "a", "ab", "abc", "d", "1", "/", "-", ">", " ", "\n", "😀", "é☃"],
         seeds: vec!["", "ab", "abcd", "abcx", "abc d", "a.b", "1.5", "1..5", "1...5", "1.x", "/ab/", "/ab", "/ ab /", "-->", "-- >", "--x", "ab abcd abc . .. ... 1.5.6", "....", "ab/cd/ef/", "😀é☃à", "a😀b", "é.😀..☃"],
+        skippable: b" \t\r\n", has_scanner: false,
+    }
+}
+
+/// Tokens that scan far ahead and then fall back: `tagged` = /[a-z]+(-[a-z]+)*!/ reads a whole dashed run before it can
+/// fail and give way to `word`; with `pair` the token whose look-ahead is long is a NON-last child of an inner node.
+pub fn lookfar() -> ZooLang {
+    let g = G::new("lookfar")
+        .rule("source", rep(choice(vec![sym("tagged"), sym("pair"), sym("word"), sym("bang")])))
+        .rule("pair", seq(vec![field("left", sym("word")), s("-")]))
+        .rule("tagged", pat("[a-z]+(-[a-z]+)*!"))
+        .rule("word", pat("[a-z]+"))
+        .rule("bang", s("!"));
+    ZooLang {
+        name: "lookfar", spec: spec(g, None),
+        lexemes: vec!["a", "bc", "-", "!", " ", "\n"],
+        seeds: vec!["", "a", "a!", "a-bc", "a-bc!", "a-b-cd", "a-b-cd!", "ab-cd-ef g", "a-bc d-e!", "a- b", "a-bbbbbbbbbbbbbb", "a-bbbbbbbbbbbbbbb", "a-bbbbbbbbbbbbbbbb", "a-b-c-d-e-f-g-h-i-j", "-", "a--b"],
         skippable: b" \t\r\n", has_scanner: false,
     }
 }
@@ -274,13 +294,13 @@ pub fn fixture(name: &'static str, lexemes: Vec<&'static str>, seeds: Vec<&'stat
 }
 
 pub fn core_zoo() -> Vec<ZooLang> {
-    vec![arith(), stmts(), jsonish(), glr(), lexla(), indent(), pstring()]
+    vec![arith(), stmts(), jsonish(), glr(), lexla(), indent(), pstring(), lookfar()]
 }
 
 pub fn by_name(name: &str) -> Option<ZooLang> {
     match name {
         "arith" => Some(arith()), "stmts" => Some(stmts()), "jsonish" => Some(jsonish()), "glr" => Some(glr()), "lexla" => Some(lexla()),
-        "indent" => Some(indent()), "pstring" => Some(pstring()), "tmpl" => Some(tmpl()), "tagl" => Some(tagl()),
+        "indent" => Some(indent()), "pstring" => Some(pstring()), "lookfar" => Some(lookfar()), "tmpl" => Some(tmpl()), "tagl" => Some(tagl()),
         _ => None,
     }
 }
